@@ -110,6 +110,8 @@ type pathCtx struct {
 	doms     map[*Term]*byteDom
 	domSkips int
 	pend     []pendingAssert
+	symTime  bool
+	clock    int64
 	fixed    map[uint64][]fixedTerm
 	nfixed   int
 }
